@@ -21,4 +21,9 @@ def collocSlope (C : List (List α)) (Xc : List V) (j : Nat) (dt : α) : V :=
 /-- `mtimes(Xc, D)` : end value of the collocation polynomial -/
 def collocEnd (D : List α) (Xc : List V) : V := lincomb D Xc
 
+/-- running sum `Σ_{m<n} f m` (`self.q = self.q + …` across the steps) -/
+def cumSum (f : Nat → V) : Nat → V
+  | 0 => 0
+  | n+1 => cumSum f n + f n
+
 end Rockit
